@@ -90,20 +90,20 @@ def run(chk):
 
     # ---------------- R3
     r3 = chk.rule("C09.R3", "inner clients always raise: _create_client passes the constant ignore_exc=False")
-    cc = prog.method(pooled, "_create_client")
-    ctor = [c for c in walk_no_nested(cc.node) if isinstance(c, ast.Call) and (is_self_attr(c.func, "client_class") or call_name(c) == "Client")]
-    r3.floor("client constructor calls in _create_client", len(ctor), 1)
-    for c in ctor:
-        kw = {k.arg: k.value for k in c.keywords}
-        v = kw.get("ignore_exc")
-        ok = isinstance(v, ast.Constant) and v.value is False
-        r3.expect(ok, "_create_client: ignore_exc=False", "PooledClient._create_client:ignore_exc", "inner clients are created with ignore_exc=%s: a failure inside the bracket would be invisible to the pool and the broken connection released for reuse" % (node_src(v) if v is not None else "<Client's default>"), fn=cc, node=c)
-        if v is None:
-            # default of Client.__init__
-            p = prog.method("Client", "__init__").param("ignore_exc")
-            if p is not None and isinstance(p.default, ast.Constant) and p.default.value is False:
-                r3.findings.pop()
-                r3.ok("ignore_exc left to Client's default False")
+    from . import pooled as pooled_an
+
+    pinit, cc, created = pooled_an.created_client_options(prog)
+    r3.floor("client constructor calls reached through __init__ + _create_client", len(created), 1)
+    cdef = prog.method("Client", "__init__").param("ignore_exc")
+    for pos, kw in created:
+        v = kw.get("ignore_exc", "<not passed>")
+        if v == "<not passed>":
+            ok = cdef is not None and isinstance(cdef.default, ast.Constant) and cdef.default.value is False and "**" not in kw
+            shown = "<Client's default %s>" % (node_src(cdef.default) if cdef is not None and cdef.default is not None else "?")
+        else:
+            ok = v == Const(False)
+            shown = str(v.v) if isinstance(v, Const) else ("the PooledClient's own `%s` option" % v.name if isinstance(v, pooled_an.P) else str(v))
+        r3.expect(ok, "_create_client: inner clients get ignore_exc=False", "PooledClient._create_client:ignore_exc", "inner clients are created with ignore_exc=%s: a failure inside the bracket would be invisible to the pool and the broken connection released for reuse" % shown, fn=cc, node=cc.node)
 
     from . import rules_C01, report
 
